@@ -15,11 +15,16 @@ func wrapReader(reader io.ReadCloser, writer ...io.Writer) *wrappedReader {
 type wrappedReader struct {
 	reader io.ReadCloser
 	writer []io.Writer
+	// readErr is the first error other than io.EOF that reading the source returned
+	readErr error
 }
 
 // Read implement io.Reader
 func (w *wrappedReader) Read(p []byte) (n int, err error) {
 	n, rerr := w.reader.Read(p)
+	if rerr != nil && rerr != io.EOF && w.readErr == nil {
+		w.readErr = rerr
+	}
 	for _, w := range w.writer {
 		wTotal := 0
 		for wTotal < n {
